@@ -134,6 +134,17 @@ theorem edge_item (field : List Tree) (q : List QItem) (p : Nat × Nat) (r : Lis
     simp only [qSlice, edgeItem_first, edgeItem_last, hq, he, List.head?_cons, Option.map_some]
     rw [hs]
 
+/-- **edge_item (virtual fields).** For elements living in `Call.args` / `Call.keywords` (`ClassDef.bases` /
+`keywords`) the index used is the position in the virtual field `_args` (`_bases`), i.e. in SOURCE order.  When the
+captured elements are consecutive in source order, the substituted slice is exactly the captured elements, in source
+order — whatever mixture of positional, starred and keyword arguments they are. -/
+theorem edge_item_virtual (field : List Tree) (order : List (Nat × Nat)) (q : List RItem) (p : Nat × Nat)
+    (r : List (Nat × Nat)) (hq : flatR q = p :: r) (hc : Contig (virtPairs order (p :: r))) :
+    qSlice field (virtQ order q) = some (elemsAt field order (flatR q)) := by
+  have h1 : flatQ (virtQ order q) = virtPairs order (p :: r) := by rw [flatQ_virtQ, hq]
+  have h2 := edge_item field (virtQ order q) _ _ (by rw [h1]; rfl) (by simpa [virtPairs] using hc)
+  rw [h2, h1, segs_virtPairs, hq]
+
 /-- no captured element: the slot is deleted (`repl_slot_new = None`) -/
 theorem edge_item_empty (field : List Tree) (q : List QItem) (hq : flatQ q = []) : qSlice field q = none := by
   cases q with
@@ -212,6 +223,11 @@ example : Fills (exP false) := by
       cases qSlice fl q with
       | none => exact ⟨_, _, rfl⟩
       | some ts => exact ⟨_, _, rfl⟩
+    | qlistV fl o q s =>
+      simp only []
+      cases qSlice fl (virtQ o q) with
+      | none => exact ⟨_, _, rfl⟩
+      | some ts => exact ⟨_, _, rfl⟩
 
 /-- flat: `h(k, g(a), b, f(g(a), b))`, one substitution; the slice capture is spliced in -/
 example : Tree.beqL (cleanList (run (exP false) false 0 10 exT).trees)
@@ -240,5 +256,17 @@ example : (run ⟨exM, fun _ => false, exTmpl, false, some 2, 8⟩ false 0 10 ex
 def exQ : List QItem := [.one 1 2, .many [], .many [(2, 3), (3, 4)]]
 example : Contig (flatQ exQ) := by simp [exQ, flatQ, Contig]
 example : edgeItem exQ false = some 1 ∧ edgeItem exQ true = some 4 := by decide
+
+/-- virtual field: `log(fmt, level=1, *extra)`: args = [fmt, *extra], keywords = [level=1]; source order of `_args` is
+fmt (0,0), level=1 (1,0), *extra (0,1).  The capture `rest = [level=1, *extra]` maps to the virtual range 1..3 and
+yields exactly those two elements; with the raw `args` index of `*extra` (1) the range would be 1..2 and lose it. -/
+def exOrder : List (Nat × Nat) := [(0, 0), (1, 0), (0, 1)]
+def exField : List Tree := [.node 30 false [], .node 31 false [], .node 32 false []]
+def exR : List RItem := [.one 1 0, .one 0 1]
+example : Contig (virtPairs exOrder (flatR exR)) := by simp [exOrder, exR, flatR, virtPairs, virtIdx, Contig]
+example : (match qSlice exField (virtQ exOrder exR) with
+           | some ts => Tree.beqL ts [.node 31 false [], .node 32 false []]
+           | none => false) = true
+    ∧ edgeItem (virtQ exOrder exR) true = some 3 ∧ edgeItem [QItem.one 1 2, QItem.one 1 2] true = some 2 := by decide
 
 end Pfst.C18
